@@ -154,6 +154,67 @@ def s_uout(b, t):
     return b.emit({"k": "uout", "fn": fn, "a": args, "kw": kw, "tgt": t, "sp": rng.choice(["mg", "np"])})
 
 
+def exact_value(b, shape, lo=0.3, hi=2.0):
+    """Encoded operand of exactly `shape` that shares no memory with any existing tensor: array literal, new leaf tensor (constant or
+    not) or a tensor computed from a new leaf."""
+    rng = b.rng
+    shape = tuple(shape)
+    c = rng.random()
+    if c < 0.3:
+        return enc_arr(B.rand_values(rng, shape, lo, hi, True))
+    n = b.leaf(shape, constant=rng.choice([None, None, True]) if c < 0.7 else None, lo=lo, hi=hi)
+    if c < 0.7:
+        return R(n)
+    m = b.call(rng.choice(["sin", "tanh", "square"]), [R(n)], sp="mg")
+    return R(m if m is not None else n)
+
+
+def s_fout(b, t):
+    """out=<tensor> on the functions that are not plain ufuncs: matmul, einsum, clip, concatenate, stack."""
+    rng = b.rng
+    tv = b.val(t)
+    if tv.dtype.kind != "f" or tv.size == 0 or tv.size > 24:
+        return False
+    sh = tv.shape
+    kinds = ["einsum", "clip"]
+    if tv.ndim == 2:
+        kinds += ["matmul", "matmul"]
+    if tv.ndim >= 1 and max(sh) >= 2:
+        kinds += ["concatenate"]
+    if tv.ndim >= 1 and 1 <= min(sh) and any(d <= 3 for d in sh):
+        kinds += ["stack"]
+    kind = rng.choice(kinds)
+    kw = {}
+    if kind == "matmul":
+        k = rng.randint(1, 3)
+        args = [exact_value(b, (sh[0], k)), exact_value(b, (k, sh[1]))]
+    elif kind == "einsum":
+        k = rng.randint(1, 3)
+        lbl = "abcd"[: tv.ndim]
+        if rng.random() < 0.5:
+            args = [f"{lbl}z->{lbl}", exact_value(b, sh + (k,))]
+        else:
+            args = [f"{lbl}z,z->{lbl}", exact_value(b, sh + (k,)), exact_value(b, (k,))]
+    elif kind == "clip":
+        lo, hi = sorted([round(rng.uniform(-1.5, 0.2), 2), round(rng.uniform(0.3, 1.8), 2)])
+        r = rng.random()
+        args = [exact_value(b, sh), None if r < 0.2 else lo, None if 0.2 <= r < 0.4 else hi]
+        if not OT.SPECS["clip"].in_domain(b.it.dec(args[0]), args[1], args[2]):
+            return False
+    elif kind == "concatenate":
+        ax = rng.choice([i for i, d in enumerate(sh) if d >= 2])
+        cut = rng.randint(1, sh[ax] - 1)
+        parts = [exact_value(b, sh[:ax] + (d,) + sh[ax + 1:]) for d in (cut, sh[ax] - cut)]
+        args = [["l", parts]]
+        kw["axis"] = ax if rng.random() < 0.5 else ax - tv.ndim
+    else:
+        ax = rng.choice([i for i, d in enumerate(sh) if d <= 3])
+        parts = [exact_value(b, sh[:ax] + sh[ax + 1:]) for _ in range(sh[ax])]
+        args = [["l", parts] if rng.random() < 0.5 else ["t", parts]]
+        kw["axis"] = ax if rng.random() < 0.5 else ax - tv.ndim
+    return b.emit({"k": "uout", "fn": kind, "a": args, "kw": kw, "tgt": t, "sp": rng.choice(["mg", "np"])})
+
+
 def s_setshape(b, t):
     rng = b.rng
     tv = b.val(t)
@@ -312,7 +373,14 @@ def grow(b, rng, base, target, inplace_w=4, view_w=4, read_w=3, setshape_w=0.6, 
             ok = s_setshape(b, t)
         else:
             c = rng.random()
-            ok = s_setitem(b, t) if c < 0.5 else (s_aug(b, t) if c < 0.75 else s_uout(b, t))
+            if c < 0.45:
+                ok = s_setitem(b, t)
+            elif c < 0.68:
+                ok = s_aug(b, t)
+            elif c < 0.88:
+                ok = s_uout(b, t)
+            else:
+                ok = s_fout(b, t) or s_uout(b, t)
             if ok:
                 n_inplace += 1
         if ok:
